@@ -137,7 +137,10 @@ def tree_spec(draw, git=None, max_nodes=22):
     return spec
 
 
-def materialise(root: Path, spec) -> None:
+def materialise(root: Path, spec, git_top: Path = None) -> None:
+    """Write the tree below *root*.  With *git_top* (an ancestor of root) the
+    Git repository is created there instead, so that the project root lies
+    below the top of the work tree (monorepo layout)."""
     files = {}
     for p, v in spec["nodes"].items():
         if v[0] in ("text", "binary"):
@@ -153,6 +156,15 @@ def materialise(root: Path, spec) -> None:
             if p not in files:
                 files[p] = ("\n".join(pats) + "\n").encode()
     T.write_tree(root, files)
+    if g and git_top is not None:
+        prefix = os.path.relpath(root, git_top) + "/"
+        T.write_tree(git_top, {".gitignore": "*.bin\nbuild/\n/" + prefix + "UPPER.TXT\n", "top-level.py": "x\n"})
+        T.git_init(git_top)
+        for p in g["tracked"]:
+            T.git(git_top, "add", "--", prefix + p, check=False)
+        for p in g["forced"]:
+            T.git(git_top, "add", "-f", "--", prefix + p, check=False)
+        return
     if g:
         T.git_init(root)
         for sm in g["submodules"]:
